@@ -82,6 +82,7 @@ func c03Shapes() []docgen.Doc {
 		{Records: []docgen.GRecord{mk("1999-12-31", nil, e("2h")), mk("2020-01-01", []string{"t"}, e("16:00-?", "summary with trailing tab\t", "and continuation  "), e("-3m", "p "))}},
 		{Records: []docgen.GRecord{mk("2020-01-01", nil, e("17:00 - ????????", "long placeholder"), e("-0h05m", "padded pause")), mk("2020-02-02", nil, e("1h", "tail Caf\xe9 latin-1 \xff"))}},
 		{Records: []docgen.GRecord{mk("2020-01-01", nil, e("-30m", "Lunch"), e("12:30 - ?", "work", "chapter one", "chapter two"))}},
+		{Records: []docgen.GRecord{mk("2020-01-01", nil, e("15:00 - ?", "x"), e("-30m\tLunch break after a tab"), e("-0m\tq"))}},
 		{Records: []docgen.GRecord{mk("2025-01-01", nil, e("1h")), mk("2020-01-01", nil, e("<22:00 - ??", "x"), e("-5m"), e("0m")), mk("1999-12-31", nil, e("20:00 - ?"))}},
 	}
 	return append(shapes, extra...)
